@@ -10,7 +10,7 @@ use serde_json::json;
 use std::io::Cursor;
 use std::sync::Mutex;
 
-const ATOMS: [&str; 14] = ["a", " ", "  ", "\t", "\n", "&", "<", ">", "\"", "'", "]]>", "\u{e9}", "\u{20ac}", "\u{1F600}"];
+const ATOMS: [&str; 15] = ["a", " ", "  ", "\t", "\n", "&", "<", ">", "\"", "'", "]]>", "\u{e9}", "\u{20ac}", "\u{1F600}", "\u{91}"];
 const FORMATS: [&str; 4] = ["xlsx", "xlsb", "xls", "ods"];
 const SENTINEL: &str = "k";
 
